@@ -623,6 +623,9 @@ func TestEmit(t *testing.T) {
 					fmt.Sprintf(`{"jsonrpc":"2.0","id":%s,"method":"m","extra":true}`, id),
 					fmt.Sprintf(`{"jsonrpc":"2.0","id":%s,"method":"m","params":7}`, id),
 					fmt.Sprintf(`[{"jsonrpc":"2.0","id":%s,"method":"m","params":"s"},{"jsonrpc":"2.0","id":%s,"method":"m","params":[2]}]`, id, id),
+					// notifications among the calls: the replies are those of the calls, each under its own id
+					fmt.Sprintf(`[{"jsonrpc":"2.0","method":"m"},{"jsonrpc":"2.0","id":%s,"method":"m","params":[3]}]`, id),
+					fmt.Sprintf(`[{"jsonrpc":"2.0","id":%s,"method":"m"},{"jsonrpc":"2.0","id":null,"method":"m"},{"jsonrpc":"2.0","method":"no-such-method"},{"jsonrpc":"2.0","id":%s,"method":"m","params":[4]}]`, id, id),
 				} {
 					req := httptest.NewRequest("POST", "http://b/", strings.NewReader(body))
 					req.Header.Set("Content-Type", "application/json")
@@ -638,6 +641,9 @@ func TestEmit(t *testing.T) {
 					if w.Code != 200 || !ok || len(ms) == 0 {
 						res.add(cell, rec, fmt.Sprintf("bridge answered status %d with a body that is not a JSON-RPC reply", w.Code))
 						continue
+					}
+					if want := map[int]int{5: 2, 6: 1, 7: 2}[k]; want != 0 && len(ms) != want {
+						res.add(cell, rec, fmt.Sprintf("bridge answered %d replies, want %d (one per call)", len(ms), want))
 					}
 					for _, m := range ms {
 						if !jsonEq(m["id"], []byte(id)) {
